@@ -585,9 +585,10 @@ def table_grid(here, thorough=False):
     [supervisord] key falsy at once: [(label, cfg)]."""
     b = grid_base(here)
     out = []
+    # values carry no leading/trailing blanks: the tokeniser strips them
     for sec, rows in option_tables().items():
         for opt, conv in rows:
-            for v in ['0', 'false', '', 'x!'] + (['000', 'none', '-0', ' '] if thorough else []):
+            for v in ['0', 'false', '', 'x!'] + (['000', 'none', '-0', '0 0'] if thorough else []):
                 out.append(('%s %s=%r' % (sec, opt, v), _set(b, sec, opt, v)))
     allfalsy = [('logfile_maxbytes', '0'), ('logfile_backups', '0'), ('minfds', '0'), ('minprocs', '0'),
                 ('umask', '000'), ('nodaemon', 'false'), ('silent', '0'), ('nocleanup', 'no'), ('strip_ansi', 'off'),
